@@ -31,3 +31,281 @@ def keys_stream(ctx):
     data = dict(passwords=pws, wrong=wrong, results=[dict(job=j, out=o, rc=rc, err=e) for j, (o, rc, e) in zip(jobs, res)])
     streams.cache_put(p, data)
     return data
+
+
+FORGE_HISTORY = [{"op": "initialize"}, {"op": "mkdir", "name": "/a", "perm": 0o755}, {"op": "createfile", "name": "/a/f", "blob": 0},
+                 {"op": "createfile", "name": "/g", "blob": 1}, {"op": "rename", "name": "/g", "name2": "/a/h"}, {"op": "chmod", "name": "/a/f", "perm": 0o600},
+                 {"op": "createfile", "name": "/a/f", "blob": 2}, {"op": "remove", "name": "/a/h"}]
+
+
+def forge_stream(ctx):
+    data, p = streams.cache_get(ctx, "forge")
+    if data is not None:
+        return data
+    ok, out = hist.build_harness()
+    if not ok:
+        raise RuntimeError(out[-1500:])
+    quick = ctx.tier == "quick"
+    rng = random.Random(ctx.seed * 89 + 8)
+    cfgs = []
+    for sig in ("minisign", "pgp"):
+        for enc in ("", "age", "pgp"):
+            for comp in ("", "gzip") if not quick else ("",):
+                cfgs.append({"rs": rng.choice([3, 20]), "cache": "file", "sig": sig, "enc": enc, "comp": comp})
+    if quick:
+        cfgs = [c for c in cfgs if (c["sig"], c["enc"]) in (("minisign", ""), ("pgp", ""), ("minisign", "age"), ("pgp", "pgp"))]
+    jobs = [{"history": {"config": c, "blobs": [{"seed": 1, "len": 700}, {"seed": 2, "len": 10}, {"seed": 3, "len": 1300}], "obs": [], "calls": FORGE_HISTORY},
+             "struct": True, "maxflip": 40 if quick else 0, "flips": [] if quick else [-1], "seed": ctx.seed} for c in cfgs]
+    with ThreadPoolExecutor(max_workers=3) as ex:
+        res = list(ex.map(lambda j: run_cmd("forge", j, timeout=6000), jobs))
+    data = [dict(job=j, out=o, rc=rc, err=e) for j, (o, rc, e) in zip(jobs, res)]
+    streams.cache_put(p, data)
+    return data
+
+
+def c08_oracle(d):
+    fails = []
+    if d["rc"] != 0 or not d["out"] or any("fatal" in r for r in d["out"]):
+        return [dict(kind="forgery-run-failed", pos=None, detail=[d["err"][-300:], [r for r in d["out"] if "fatal" in r]])]
+    for r in d["out"]:
+        if "kind" not in r:
+            continue
+        ix = str(r.get("index", ""))
+        if ix.startswith("HANG") or ix.startswith("PANIC"):
+            fails.append(dict(kind="indexer-" + ix[:5].lower(), pos=r.get("pos"), detail=[r["kind"], ix]))
+        if r.get("forged_headers_accepted"):
+            fails.append(dict(kind="forged-header-accepted", pos=r.get("pos"), detail=[r["kind"], r["forged_headers_accepted"][:2]]))
+        if r.get("forged_content_returned"):
+            fails.append(dict(kind="forged-content-returned", pos=r.get("pos"), detail=[r["kind"], r["forged_content_returned"][:2]]))
+        if r["kind"].startswith("control") or r["kind"] == "untouched":
+            if r.get("index") != "ok":
+                fails.append(dict(kind="legitimate-tape-rejected", pos=r.get("pos"), detail=[r["kind"], r.get("index_err")]))
+        elif r["kind"] != "flip" and r["kind"] != "content-altered" and r.get("index") == "ok":
+            fails.append(dict(kind="structured-forgery-not-rejected", pos=r.get("pos"), detail=[r["kind"]]))
+    return fails
+
+
+def marker_history(rng, cfg):
+    ms = ["MRK%012x" % rng.getrandbits(48) for _ in range(4)]
+    d, f, g, nn = ms[0], ms[1], ms[2], ms[3]
+    calls = [{"op": "initialize"}, {"op": "mkdir", "name": "/" + d, "perm": 0o755}, {"op": "createfile", "name": "/%s/%s" % (d, f), "blob": 0},
+             {"op": "createfile", "name": "/" + g, "blob": 1}, {"op": "rename", "name": "/" + g, "name2": "/%s/%s" % (d, nn)},
+             {"op": "chmod", "name": "/%s/%s" % (d, nn), "perm": 0o600}, {"op": "chown", "name": "/" + d, "uid": 4242, "gid": 4343},
+             {"op": "writefile", "name": "/%s/%s" % (d, f), "flags": hist.O_WRONLY | hist.O_APPEND, "perm": 0o644, "blob": 2},
+             {"op": "mkdirall", "name": "/%s/x/%s" % (d, g), "perm": 0o700}, {"op": "remove", "name": "/%s/%s" % (d, nn)}, {"op": "removeall", "name": "/%s/x" % d}]
+    # blob k (seed k+1) embeds marker k
+    return {"history": {"config": cfg, "blobs": [{"seed": 1, "len": rng.choice([60, 700, 3000])}, {"seed": 2, "len": 40}, {"seed": 3, "len": 600}], "obs": [], "calls": calls},
+            "markers": ms}
+
+
+def markers_stream(ctx):
+    data, p = streams.cache_get(ctx, "markers")
+    if data is not None:
+        return data
+    ok, out = hist.build_harness()
+    if not ok:
+        raise RuntimeError(out[-1500:])
+    quick = ctx.tier == "quick"
+    rng = random.Random(ctx.seed * 71 + 12)
+    cfgs = []
+    for enc in ("age", "pgp"):
+        for comp in ("", "gzip", "zstandard", "lz4", "brotli", "bzip2"):
+            for sig in ("", "minisign", "pgp"):
+                cfgs.append({"rs": rng.choice([1, 3, 20]), "cache": "file", "enc": enc, "comp": comp, "sig": sig})
+    if quick:
+        cfgs = [c for c in cfgs if (c["comp"], c["sig"]) in (("", ""), ("gzip", "minisign"), ("", "pgp"))]
+    jobs = [marker_history(rng, c) for c in cfgs]
+    with ThreadPoolExecutor(max_workers=6) as ex:
+        res = list(ex.map(lambda j: run_cmd("markers", j, timeout=1200), jobs))
+    data = [dict(job=j, out=o, rc=rc, err=e) for j, (o, rc, e) in zip(jobs, res)]
+    streams.cache_put(p, data)
+    return data
+
+
+def c09_oracle(d):
+    fails = []
+    if d["rc"] != 0 or not d["out"] or any("fatal" in r for r in d["out"]):
+        return [dict(kind="marker-run-failed", i=None, detail=[d["err"][-300:], [r for r in d["out"] if "fatal" in r]])]
+    for r in d["out"]:
+        if "i" in r:
+            if r.get("out") == "HANG":
+                fails.append(dict(kind="call-hung", i=r["i"], detail=[]))
+            if r.get("found"):
+                fails.append(dict(kind="plaintext-on-tape", i=r["i"], detail=[r.get("op"), r["found"]]))
+        if r.get("step") == "foreign-identity":
+            if r.get("index") == "ok" or r.get("accepted", 0) > 0:
+                fails.append(dict(kind="rebuild-succeeds-with-another-key", i=None, detail=[r.get("index"), r.get("accepted")]))
+            if r.get("fetch_succeeded_for"):
+                fails.append(dict(kind="restore-succeeds-with-another-key", i=None, detail=r["fetch_succeeded_for"][:3]))
+    return fails
+
+
+COMPS = ["", "gzip", "parallelgzip", "lz4", "zstandard", "brotli", "bzip2", "parallelbzip2"]
+LEVELS = ["fastest", "balanced", "smallest"]
+
+
+SUFFIX = {"gzip": ".gz", "parallelgzip": ".gz", "lz4": ".lz4", "zstandard": ".zst", "brotli": ".br", "bzip2": ".bz2", "parallelbzip2": ".bz2", "age": ".age", "pgp": ".pgp"}
+
+
+def matrix_history(cfg, sizes, kinds):
+    blobs, calls = [], [{"op": "initialize"}]
+    for i, (n, k) in enumerate([(n, k) for n in sizes for k in kinds]):
+        blobs.append({"seed": i + 1, "len": n, "kind": k})
+    half = len(blobs) // 2
+    # first half through the filesystem (Create/Write/Close), second half through a batched Archive, then one Update
+    for i in range(half):
+        calls.append({"op": "createfile", "name": "/f%d" % i, "blob": i})
+    if blobs[half:]:
+        calls.append({"op": "archive", "files": [{"path": "/a%d" % i, "blob": i, "mode": 0o644} for i in range(half, len(blobs))]})
+    calls.append({"op": "update", "files": [{"path": "/f0", "blob": len(blobs) - 1, "mode": 0o644}], "flag": True})
+    calls.append({"op": "reopen"})
+    names = ["/f%d" % i for i in range(half)] + ["/a%d" % i for i in range(half, len(blobs))]
+    expect = {("/f%d" % i): i for i in range(half)}
+    expect.update({("/a%d" % i): i for i in range(half, len(blobs))})
+    expect["/f0"] = len(blobs) - 1
+    dirs = []
+    # names that themselves end in a codec suffix (of this configuration and of the others): with content, empty,
+    # a directory; then a metadata update and a rename of them (records that carry names but no content)
+    sufs = [x for x in {SUFFIX.get(cfg.get("comp") or "", ""), SUFFIX.get(cfg.get("enc") or "", "")} if x] or [".gz"]
+    big = max(range(len(blobs)), key=lambda i: blobs[i]["len"])
+    empty = min(range(len(blobs)), key=lambda i: blobs[i]["len"])
+    for j, sf in enumerate(sorted(sufs) + [".zst.age"]):
+        n, e, dname, m = "/n%d%s" % (j, sf), "/e%d%s" % (j, sf), "/d%d%s" % (j, sf), "/m%d%s" % (j, sf)
+        calls += [{"op": "createfile", "name": n, "blob": big}, {"op": "createfile", "name": e, "blob": empty}, {"op": "mkdir", "name": dname, "perm": 0o755},
+                  {"op": "chmod", "name": n, "perm": 0o600}, {"op": "chmod", "name": e, "perm": 0o600},
+                  {"op": "rename", "name": n, "name2": m}, {"op": "createfile", "name": dname + "/c" + sf, "blob": big}]
+        expect[m] = big
+        expect[e] = empty
+        expect[dname + "/c" + sf] = big
+        names += [m, e, dname + "/c" + sf]
+        dirs.append(dname)
+    calls.append({"op": "reopen"})
+    for n in names:
+        calls += [{"op": "readfile", "name": n, "tag": n}, {"op": "stat", "name": n, "tag": n}, {"op": "restore", "name": n, "name2": "", "flag": True, "tag": n}]
+    calls.append({"op": "nop", "obs": ["fetch", "tree", "rebuild"], "tag": "fetch"})
+    return {"config": cfg, "blobs": blobs, "obs": [], "calls": calls, "expect": expect, "dirs": dirs}
+
+
+def matrix_stream(ctx):
+    data, p = streams.cache_get(ctx, "matrix")
+    if data is not None:
+        return data
+    ok, out = hist.build_harness()
+    if not ok:
+        raise RuntimeError(out[-1500:])
+    quick = ctx.tier == "quick"
+    rng = random.Random(ctx.seed * 43 + 13)
+    cfgs = []
+    for comp in COMPS:
+        for level in LEVELS:
+            for enc in ("", "age", "pgp"):
+                for sig in ("", "minisign", "pgp"):
+                    cfgs.append(dict(comp=comp, level=level, enc=enc, sig=sig))
+    if quick:
+        # every compression x one level, every encryption, every signature at least once; 24 configurations
+        pick = []
+        for i, comp in enumerate(COMPS):
+            pick.append(dict(comp=comp, level=LEVELS[i % 3], enc=["", "age", "pgp"][i % 3], sig=["", "minisign", "pgp"][(i // 2) % 3]))
+            pick.append(dict(comp=comp, level=LEVELS[(i + 1) % 3], enc=["", "age", "pgp"][(i + 1) % 3], sig=["", "minisign", "pgp"][(i + 1) % 3]))
+        cfgs = pick
+    hs = []
+    for c in cfgs:
+        rs = rng.choice([1, 2, 3, 7, 20, 64])
+        sizes = [0, 1, 511, 512, 513, rs * 512 - 1, rs * 512 + 1] + ([3 * rs * 512 + 5] if rs <= 20 else [])
+        sizes = sorted(set(sizes))
+        if quick:
+            sizes = [0] + rng.sample(sizes[1:], 3)
+        kinds = ["", "zeros", "text"] if not quick else [rng.choice(["", "zeros", "text"])]
+        cache = rng.choice(["file", "memory"])
+        hs.append(matrix_history(dict(c, rs=rs, cache=cache), sizes, kinds))
+    res = hist.run_many(hs, workers=10, timeout=600)
+    data = [dict(h=h, res=r, rc=rc, err=e[-600:]) for h, (r, rc, e) in zip(hs, res)]
+    streams.cache_put(p, data)
+    return data
+
+
+def c03_oracle(d):
+    h, res = d["h"], d["res"]
+    fails = []
+    if d["rc"] != 0:
+        last = res[-1] if res else {}
+        return [dict(kind="crash-or-hang", name=None, detail=[d["rc"], last.get("op"), d["err"][-200:]])]
+    blobs = h["blobs"]
+    for c, r in zip(h["calls"], res):
+        if c["op"] in ("createfile", "archive", "update", "initialize", "reopen") and r["out"] != "ok":
+            fails.append(dict(kind="write-failed", name=c.get("name"), detail=[c["op"], r["out"], r.get("err")]))
+        t = c.get("tag")
+        if not t or t == "fetch":
+            continue
+        b = blobs[h["expect"][t]]
+        ret = r.get("ret") or {}
+        if c["op"] in ("readfile", "restore"):
+            if r["out"] != "ok" or ret.get("len") != b["len"] or ret.get("blob") != h["expect"][t]:
+                # blob ids are resolved by content hash, so a wrong id means wrong bytes
+                fails.append(dict(kind="%s-differs-from-written" % c["op"], name=t, detail=[r["out"], r.get("err"), ret.get("len"), b["len"], b.get("kind")]))
+        elif c["op"] == "stat":
+            if r["out"] != "ok" or (ret.get("info") or {}).get("size") != b["len"]:
+                fails.append(dict(kind="stat-size-differs", name=t, detail=[r["out"], (ret.get("info") or {}).get("size"), b["len"]]))
+    last = res[-1] if res else {}
+    for c, r in zip(h["calls"], res):
+        if c["op"] in ("mkdir", "chmod", "rename") and r["out"] != "ok":
+            fails.append(dict(kind="name-with-codec-suffix", name=c.get("name"), detail=[c["op"], r["out"], r.get("err")]))
+    want = sorted(set(list(h["expect"].keys()) + h.get("dirs", [])))
+    for where, tree in (("tree", (last.get("obs") or {}).get("tree")), ("rebuilt-tree", ((last.get("obs") or {}).get("rebuild") or {}).get("tree"))):
+        if tree is None:
+            continue
+        got = sorted(e["path"] for e in tree if e.get("path") not in ("/", ""))
+        if got != want:
+            fails.append(dict(kind="names-differ-from-archived", name=where, detail=[sorted(set(want) - set(got)), sorted(set(got) - set(want))]))
+    for f in (last.get("obs") or {}).get("fetch", []):
+        n = f["name"] if f["name"].startswith("/") else "/" + f["name"]
+        if n in h["expect"]:
+            b = blobs[h["expect"][n]]
+            if f.get("err") or f.get("len") != b["len"] or f.get("blob") != h["expect"][n]:
+                fails.append(dict(kind="fetch-differs-from-written", name=n, detail=[f.get("err"), f.get("len"), b["len"]]))
+    return fails
+
+
+# ---------------------------------------------------------------- C03: codec interfaces with both drive kinds
+def codec_stream(ctx):
+    data, p = streams.cache_get(ctx, "codec")
+    if data is not None:
+        return data
+    ok, out = hist.build_harness()
+    if not ok:
+        raise RuntimeError(out[-1500:])
+    quick = ctx.tier == "quick"
+    rng = random.Random(ctx.seed * 29 + 5)
+    blobs = [{"seed": 1, "len": 0}, {"seed": 2, "len": 1}, {"seed": 3, "len": 512, "kind": "zeros"},
+             {"seed": 4, "len": rng.choice([65535, 65536, 70001])}, {"seed": 5, "len": rng.choice([200000, 262145]), "kind": "text"}]
+    if not quick:
+        blobs += [{"seed": 6, "len": 1 << 20}, {"seed": 7, "len": 4194305, "kind": "zeros"}, {"seed": 8, "len": 511}, {"seed": 9, "len": 513, "kind": "text"}]
+    jobs = []
+    for comp in COMPS:
+        for enc in (("", "age") if quick else ("", "age", "pgp")):
+            jobs.append(dict(comps=[comp], levels=LEVELS, encs=[enc], sigs=["", "minisign", "pgp"],
+                             rs=[1, 20, 128, 512] if quick else [1, 2, 3, 7, 20, 64, 128, 256, 512, 2048, 8192], regular=[True, False], blobs=blobs))
+    with ThreadPoolExecutor(max_workers=14) as ex:
+        res = list(ex.map(lambda j: run_cmd("codec", j, timeout=3000), jobs))
+    data = [dict(job=j, out=o, rc=rc, err=e[-400:]) for j, (o, rc, e) in zip(jobs, res)]
+    streams.cache_put(p, data)
+    return data
+
+
+REFUSALS = ("compression format only supports regular files", "signature format only supports regular files", "compression format requires larger record size",
+            "window size must be")
+
+
+def codec_oracle(d):
+    fails = []
+    if d["rc"] != 0 or not d["out"]:
+        return [dict(kind="codec-run-failed", name=None, detail=[d["rc"], d["err"]])]
+    for r in d["out"]:
+        res = r.get("result", "")
+        if res == "ok":
+            continue
+        if res.startswith("refused:") and any(x in res for x in REFUSALS):
+            # the combination is refused when the pipeline is set up, before anything is written: not a supported combination
+            continue
+        fails.append(dict(kind="codec-roundtrip", name="%s-%s/%s/%s rs=%s regular=%s len=%s" % (r.get("comp"), r.get("level"), r.get("enc"), r.get("sig"), r.get("rs"), r.get("regular"), r.get("len")), detail=[res]))
+    return fails
